@@ -9,11 +9,14 @@
                                                         | S (<u32>|PANIC) | R (<v0..v3> <totalLen> <pending> | PANIC) }
      D <mem0> <mem1> <mem2> <dst> <src> <dict> <ret|PANIC> <mem0'> <mem1'> <mem2'>
         slices: nil | loc,off,len,cap with loc 0/1/2 = the location of dst/src/dict
+     C <table> <inUse> <src> <srcSpare> <dst> <dstSpare> <n|PANIC> <err> <dst'> <table'> <inUse'>
+        tables: sparse, idx=val,idx=val ("-" = all zero); dst, dst' = the whole backing array of dst
    Prints one line per mismatch, then "cases=<n> mismatches=<m>"; exit status 1 when m > 0. *)
 open BinNums
 open Datatypes
 module X = GenXXHBody
 module D = GenDecodeBody
+module C = GenCompressBody
 
 let rec pos_of_int n =
   if n = 1 then Coq_xH
@@ -174,6 +177,65 @@ let dcase lineno toks =
     end
   | _ -> failwith "bad D line"
 
+(* ---------------- Compressor.CompressBlock ---------------- *)
+let int_of_z = function Z0 -> 0 | Zpos p -> int_of_pos p | Zneg p -> - (int_of_pos p)
+(* small numbers are shared; the zero tables are built once *)
+let small_tab = Array.init 65536 z_of_int
+let z_small n = if n >= 0 && n < 65536 then small_tab.(n) else z_of_int n
+let zero_table = Stdlib.List.init 65536 (fun _ -> Z0)
+let zero_inuse = Stdlib.List.init 2048 (fun _ -> Z0)
+let table_of_sparse (size : int) (zero : coq_Z list) (t : string) : coq_Z list =
+  if t = "-" then zero else begin
+    let a = Array.make size Z0 in
+    Stdlib.List.iter (fun kv -> match String.split_on_char '=' kv with
+      | [k; v] -> a.(int_of_string k) <- z_small (int_of_string v)
+      | _ -> failwith "bad sparse table") (String.split_on_char ',' t);
+    Array.to_list a end
+let sparse_of_table (size : int) (l : coq_Z list) : string =
+  if Stdlib.List.length l <> size then Printf.sprintf "BADLENGTH(%d)" (Stdlib.List.length l) else begin
+    let b = Buffer.create 256 in
+    Stdlib.List.iteri (fun i z -> if z <> Z0 then begin
+      if Buffer.length b > 0 then Buffer.add_char b ',';
+      Buffer.add_string b (string_of_int i); Buffer.add_char b '='; Buffer.add_string b (z_to_dec z) end) l;
+    if Buffer.length b = 0 then "-" else Buffer.contents b end
+
+let ccase lineno toks =
+  match toks with
+  | [t0; u0; src; sspare; dst; dspare; en; eerr; edst; et; eu] ->
+    let srcb = bytes_of_hex src and dfull = bytes_of_hex dst in
+    let sspare = int_of_string sspare and dspare = int_of_string dspare in
+    let dlen = Stdlib.List.length dfull - dspare in
+    let rec split n l = if n <= 0 then [], l else match l with [] -> [], [] | x :: r -> let a, b = split (n - 1) r in x :: a, b in
+    let d0, d1 = split dlen dfull in
+    let s = C.init_lz4block_Compressor (table_of_sparse 65536 zero_table t0) (table_of_sparse 2048 zero_inuse u0) C.zero_state in
+    let s = C.init_lz4block_Compressor_CompressBlock_fresh srcb (zeros sspare) d0 d1 s in
+    let fuel = nat_of_int (Stdlib.List.length srcb + Stdlib.List.length dfull + 100) in
+    let obs (s' : C.state) =
+      [ hex_of_bytes s'.C.mem_Compressor_CompressBlock_dst;
+        sparse_of_table 65536 s'.C.mem_Compressor_table; sparse_of_table 2048 s'.C.mem_Compressor_inUse ] in
+    let names = [ "n"; "err"; "dst"; "table"; "inUse" ] in
+    let exp = [ en; eerr; edst; et; eu ] in
+    let got = match C.lz4block_Compressor_CompressBlock fuel s with
+      | GoT.Ret s' ->
+        if s'.C.mem_Compressor_CompressBlock_src <> srcb @ zeros sspare then [ "SRCCHANGED"; ""; ""; ""; "" ]
+        else z_to_dec s'.C.coq_Compressor_CompressBlock_ret0 :: z_to_dec s'.C.coq_Compressor_CompressBlock_ret1 :: obs s'
+      | GoT.Pan s' -> "PANIC" :: "0" :: obs s'
+      | GoT.Hang -> [ "HANG"; ""; ""; ""; "" ]
+      | _ -> [ "BADOUTCOME"; ""; ""; ""; "" ] in
+    let rec cmp ns es gs = match ns, es, gs with
+      | n :: ns, e :: es, g :: gs ->
+        if e <> g then begin
+          let m = min (String.length e) (String.length g) in
+          let i = ref 0 in
+          while !i < m && e.[!i] = g.[!i] do incr i done;
+          let from = max 0 (!i - 20) in
+          let part s = if String.length s <= from then "" else String.sub s from (min 80 (String.length s - from)) in
+          mismatch lineno (Printf.sprintf "CompressBlock %s (first difference at char %d)" n !i) (part e) (part g)
+        end else cmp ns es gs
+      | _ -> () in
+    cmp names exp got
+  | _ -> failwith "bad C line"
+
 let () =
   let file = Sys.argv.(1) in
   let shard = int_of_string Sys.argv.(2) and nshards = int_of_string Sys.argv.(3) in
@@ -189,6 +251,7 @@ let () =
          | "X1" :: r -> x1 !lineno r
          | "XS" :: r -> xs !lineno r
          | "D" :: r -> dcase !lineno r
+         | "C" :: r -> ccase !lineno r
          | _ -> failwith ("bad line " ^ string_of_int !lineno)
        end
      done
